@@ -532,9 +532,10 @@ func c04One(t *testing.T, run *c04Run) {
 // new page.  The layout differs from run to run, so only the layout-independent clauses are judged
 // (CounterFileLite.tla).
 type c04MixRun struct {
-	ID   int   `json:"id"`
-	Seed int64 `json:"seed"`
-	Kill bool  `json:"kill"`
+	ID    int   `json:"id"`
+	Seed  int64 `json:"seed"`
+	Kill  bool  `json:"kill"`
+	Chain int   `json:"chain"` // > 0: instead of the race, one process links this many names into ONE bucket, then a second one uses the chain
 }
 
 func TestVerifMixedSizesC04(t *testing.T) {
@@ -551,7 +552,97 @@ func TestVerifMixedSizesC04(t *testing.T) {
 	}
 }
 
+// c04ChainOne: a hash chain far longer than the number of records of a page.  Legal: any number of names may
+// fall into one bucket.  Process A creates the names one by one, process B (opened before the file grew) looks the
+// oldest one up and creates one more.
+func c04ChainOne(t *testing.T, run *c04MixRun) {
+	dir := t.TempDir()
+	telemetry.Default = telemetry.NewDir(dir)
+	os.MkdirAll(telemetry.Default.LocalDir(), 0777)
+	os.WriteFile(filepath.Join(telemetry.Default.LocalDir(), "weekends"), []byte("2\n"), 0666)
+	now := time.Date(2024, 3, 4, 12, 0, 0, 0, time.UTC)
+	CounterTime = func() time.Time { return now }
+	c03w = &c03World{}
+	memmap, munmap = c03Memmap, c03Munmap
+	defer func() {
+		w0 := c03w
+		c03w = nil
+		w0.release()
+	}()
+	bi := &debug.BuildInfo{GoVersion: "go1.23.0", Path: "example.com/verif/c04", Main: debug.Module{Path: "example.com/verif", Version: "v1.0.0"}}
+	open1 := func() *file {
+		f := &file{buildInfo: bi}
+		f.rotate1()
+		if f.err != nil || f.current.Raw() == nil {
+			t.Fatalf("setup: %v", f.err)
+		}
+		return f
+	}
+	fa, fb := open1(), open1()
+	path := fa.current.Raw().f.Name()
+	var names []string
+	want := rt.V1Hash("chain-0")
+	for i := 0; len(names) < run.Chain+1; i++ {
+		n := fmt.Sprintf("chain-%d", i)
+		if rt.V1Hash(n) == want {
+			names = append(names, n)
+		}
+	}
+	begun, surv, pend := rt.M{}, rt.M{}, rt.M{}
+	status := "ok"
+	var fault rt.M
+	add := func(f *file, n string) {
+		defer func() {
+			if r := recover(); r != nil {
+				status, fault = "fault", rt.M{"panic": fmt.Sprint(r), "label": "chain:" + n}
+			}
+		}()
+		c := &Counter{name: n, file: f}
+		if v, ok := begun[n].(int); ok {
+			begun[n] = v + 1
+		} else {
+			begun[n] = 1
+		}
+		c.Add(1)
+		if ex := int(c.state.load().extra()); ex > 0 {
+			pend[n] = ex
+		}
+	}
+	for _, n := range names[:run.Chain] {
+		add(fa, n)
+	}
+	add(fb, names[0])        // the oldest record: at the far end of the chain
+	add(fb, names[run.Chain]) // a new name behind the whole chain
+	data, _ := os.ReadFile(path)
+	dec := rt.DecodeV1(data)
+	vals := rt.M{}
+	for n, v := range dec.Counts() {
+		vals[n] = int(v)
+	}
+	for n, b := range begun {
+		if _, bad := pend[n]; !bad {
+			surv[n] = b
+		}
+	}
+	problems := dec.Problems
+	if problems == nil {
+		problems = []string{}
+	}
+	rt.Out(rt.M{"kind": "obs", "run": run.ID, "i": 1, "t": "final", "final": true, "survivors": surv, "size": len(data) / rt.V1Page, "limit": int(dec.Limit),
+		"problems": problems, "vals": vals, "begun": begun})
+	rt.Out(rt.M{"kind": "result", "run": run.ID, "status": status, "fault": fault, "steps": run.Chain + 2, "pending": pend})
+	for _, f := range []*file{fa, fb} {
+		if m := f.current.Raw(); m != nil {
+			m.close()
+		}
+	}
+}
+
 func c04MixOne(t *testing.T, run *c04MixRun) {
+	if run.Chain > 0 {
+		c04ChainOne(t, run)
+		return
+	}
 	dir := t.TempDir()
 	telemetry.Default = telemetry.NewDir(dir)
 	os.MkdirAll(telemetry.Default.LocalDir(), 0777)
